@@ -24,7 +24,7 @@ ASSUMPTIONS = [
     "generated curves are monotone non-decreasing sequences of 257 values in 0..0x8000",
 ]
 REQUIRED_LABELS = {
-    "quick": ["macro_single", "macro_multi", "macro_too_many", "macro_duplicate", "axis_normal", "axis_reversed", "unset_mapping_link", "curve_custom", "quantized", "convert_direct", "freed_slot_link", "link_to_controllerless_module", "multictl_out_offset_negative", "multictl_out_offset_set", "compact_target_before_other_target", "mixed_range_kinds_in_one_fanout", "every_range_shape_with_edge_windows", "windows_edited_in_place_then_swept_again"],
+    "quick": ["macro_single", "macro_multi", "macro_too_many", "macro_duplicate", "axis_normal", "axis_reversed", "unset_mapping_link", "curve_custom", "quantized", "convert_direct", "freed_slot_link", "link_to_controllerless_module", "multictl_out_offset_negative", "multictl_out_offset_set", "compact_target_before_other_target", "mixed_range_kinds_in_one_fanout", "every_range_shape_with_edge_windows", "windows_edited_in_place_then_swept_again", "chained_multictl"],
     "thorough": ["macro_single", "macro_multi", "macro_too_many", "macro_duplicate", "axis_normal", "axis_reversed", "unset_mapping_link", "curve_custom", "quantized", "convert_direct", "compact_target"],
 }
 
@@ -345,6 +345,46 @@ def run_axis_case(ctx, case, stride=1):
     return labels
 
 
+def run_chain_case(ctx, case):
+    """A MultiCtl whose input is itself driven by another MultiCtl (or, every third input, assigned
+    directly) delivers exactly what a twin delivers whose input is assigned directly: the fan-out
+    belongs to the input value, whichever way it arrived."""
+    from rv.api import Project, m
+
+    def world():
+        p = Project()
+        mods = [p.new_module(cls_of(t["type"])) for t in case["targets"]]
+        mappings = [(t["window"][0], t["window"][1], t["number"], 0, 0, 0, 0, 0) for t in case["targets"]]
+        kw = dict(gain=case["gain"], quantization=case["quantization"], mappings=mappings)
+        if case["curve"] is not None:
+            kw["curve"] = list(case["curve"])
+        mc = p.new_module(m.MultiCtl, **kw)
+        mc >> mods
+        return p, mc, mods
+
+    p, mc, mods = world()
+    driver = p.new_module(m.MultiCtl, mappings=[(0, 0x8000, 1, 0, 0, 0, 0, 0)])  # controller 1 of a MultiCtl is its value
+    driver >> mc
+    p2, mc2, mods2 = world()
+    names = [t["ctl"] for t in case["targets"]]
+    inputs = sorted(set(range(0, 32769, 211)) | {1, 2, 32767, 32768, 16384})
+    order = inputs + inputs[::-1]
+    for j, v in enumerate(order):
+        if j % 3 == 2:
+            mc.value = v
+        else:
+            driver.value = v
+        b_in = mc.value
+        mc2.value = b_in
+        for i, t in enumerate(case["targets"]):
+            got, want = mods[i].controller_values[names[i]], mods2[i].controller_values[names[i]]
+            if not (t["min"] <= got <= t["max"]):
+                raise PropertyViolation("C20.chain.in_range", "driver input %d -> MultiCtl input %d delivers %r to %s.%s, range [%d,%d]" % (v, b_in, got, t["type"], t["ctl"], t["min"], t["max"]))
+            if got != want:
+                raise PropertyViolation("C20.chain.delivers_for_current_input", "MultiCtl input %d (set %s): %s.%s holds %r, a twin whose input was assigned directly delivers %r" % (b_in, "directly" if j % 3 == 2 else "by a driving MultiCtl with input %d" % v, t["type"], t["ctl"], got, want))
+    return {"chained_multictl"}
+
+
 def nontrivial_axis(case):
     for t in case["targets"]:
         a, b = t["window"]
@@ -419,6 +459,8 @@ def run_shard(ctx, desc):
 
         def body(case):
             labels = run_axis_case(ctx, case)
+            if len(repr(case)) % 3 == 0:
+                labels |= run_chain_case(ctx, case)
             ctx.case(32769)
             ctx.label(*labels)
             if nontrivial_axis(case):
@@ -446,8 +488,10 @@ def replay(ctx, doc):
     case = r.get("case", r)
     if tag == "shapes":
         run_axis_case(ctx, case)
+
     elif tag == "axis":
         run_axis_case(ctx, case)
+        run_chain_case(ctx, case)
         run_convert_case(ctx, case)
     elif tag == "convert":
         run_convert_case(ctx, case)
